@@ -265,4 +265,44 @@ func main() {
 		}
 		run.Guard("C04/panic", c, func() { runCase(i, c) })
 	}
+	// a resource first seen after more than 10000 others (the library only warns about that many resources): its rule
+	// caps the in-flight entries all the same
+	if i := n; !run.Skip(i) {
+		d := map[string]interface{}{"family": "many-resources", "resources_before": 10050, "threshold": 2}
+		run.Begin(i, d)
+		run.Guard("C04/panic", d, func() { manyResources(d) })
+	}
+}
+
+func manyResources(d map[string]interface{}) {
+	for k := 0; k < 10050; k++ {
+		if e, b := sentinel.Entry(fmt.Sprintf("c04-many-%d", k)); b == nil {
+			e.Exit()
+		}
+	}
+	res := "c04-many-late"
+	isolation.LoadRulesOfResource(res, []*isolation.Rule{{Resource: res, MetricType: isolation.Concurrency, Threshold: 2}})
+	defer isolation.ClearRulesOfResource(res)
+	defer stat.ResetResourceNodeMap()
+	var held []*base.SentinelEntry
+	for k := 0; k < 5; k++ {
+		e, b := sentinel.Entry(res)
+		if b == nil {
+			held = append(held, e)
+		}
+		if want := k < 2; (b == nil) != want {
+			run.Violation("C04/many-resources:decision", fmt.Sprintf("threshold 2 on a resource first seen after 10050 others: request %d with %d entries in flight admitted=%v, expected %v", k, min(k, 2), b == nil, want), d)
+			break
+		}
+	}
+	for _, e := range held {
+		e.Exit()
+	}
+	if e, b := sentinel.Entry(res); b != nil {
+		run.Violation("C04/many-resources:capacity-not-freed", "all entries exited, the next request was rejected", d)
+	} else {
+		e.Exit()
+	}
+	run.Count("many_resources_cases", 1)
+	run.Distinct(vk.Hash("many-resources"))
 }
